@@ -1,5 +1,5 @@
 (* Props/C16.v — moto_nl numbers exactly the unnumbered lines, consistently with their neighbours. *)
-Require Import PyBase Text TextSpec TextProofs.
+Require Import PyBase Text TextSpec TextProofs ExtraProofs.
 Open Scope Z_scope.
 
 (* one output line per input line; a line that begins with a number is reproduced verbatim,
@@ -35,6 +35,27 @@ Theorem C16_nl_idempotent : forall start inc width lines, 1 <= start -> 1 <= inc
   nl_spec start inc width None (nl_spec start inc width None lines) = nl_spec start inc width None lines.
 Proof. exact nl_idempotent. Qed.
 Print Assumptions C16_nl_idempotent.
+
+(* what readlines yields (universal newlines for files, LF only for stdin) are lines in the sense
+   of C16_nl_shape's hypothesis: that hypothesis is always met by the tool *)
+Theorem C16_readlines_are_lines : forall t : list Z,
+  Forall (fun r => is_line r = true) (readlines_stdin t) /\ Forall (fun r => is_line r = true) (readlines_file t).
+Proof. intro t; split; [exact (readlines_stdin_lines t) | exact (readlines_file_lines t)]. Qed.
+Print Assumptions C16_readlines_are_lines.
+
+(* tool level: renumbering the printed output, given back as a file, changes nothing *)
+Theorem C16_nl_tool_idempotent : forall (start inc width : Z) (text : list Z),
+  1 <= start -> 1 <= inc -> existsb (Z.eqb 13) text = false ->
+  nl_run start inc width [(false, printed (nl_run start inc width [(false, text)]))] = nl_run start inc width [(false, text)].
+Proof. exact nl_tool_idempotent. Qed.
+Print Assumptions C16_nl_tool_idempotent.
+
+(* two files behave as their concatenation when the first ends with a newline *)
+Theorem C16_nl_files_concat : forall (start inc width : Z) (a b : list Z),
+  existsb (Z.eqb 13) a = false ->
+  nl_run start inc width [(false, a ++ [10]); (false, b)] = nl_run start inc width [(false, (a ++ [10]) ++ b)].
+Proof. exact nl_files_concat. Qed.
+Print Assumptions C16_nl_files_concat.
 
 (* non-vacuity *)
 Example C16_example :
